@@ -425,6 +425,9 @@ func (matrix *DenseInt32Matrix) PermuteRows(pi []int) error {
   if n != m {
     return fmt.Errorf("SymmetricPermutation(): matrix is not a square matrix")
   }
+  if len(pi) != n {
+    return fmt.Errorf("PermuteRows(): permutation vector has invalid length")
+  }
   // permute matrix
   for i := 0; i < n; i++ {
     if pi[i] < 0 || pi[i] > n {
@@ -441,6 +444,9 @@ func (matrix *DenseInt32Matrix) PermuteColumns(pi []int) error {
   if n != m {
     return fmt.Errorf("SymmetricPermutation(): matrix is not a square matrix")
   }
+  if len(pi) != n {
+    return fmt.Errorf("PermuteColumns(): permutation vector has invalid length")
+  }
   // permute matrix
   for i := 0; i < m; i++ {
     if pi[i] < 0 || pi[i] > n {
@@ -456,6 +462,9 @@ func (matrix *DenseInt32Matrix) SymmetricPermutation(pi []int) error {
   n, m := matrix.Dims()
   if n != m {
     return fmt.Errorf("SymmetricPermutation(): matrix is not a square matrix")
+  }
+  if len(pi) != n {
+    return fmt.Errorf("SymmetricPermutation(): permutation vector has invalid length")
   }
   for i := 0; i < n; i++ {
     if pi[i] < 0 || pi[i] > n {
